@@ -100,16 +100,29 @@ def run(chk: common.Check):
             if got != ref:
                 found.append(("option-disturbs:log-level", f"{nm}: results with {opt} differ from the default run although -d was not requested: {structures.diff(ref, got)[:3]}",
                               {"pdb": nm, "options": opt, "differences": structures.diff(ref, got)[:5]}))
+    from props import c16
+    cfgs = []
+    cases = [(n, t, []) for n, t in cases]
+    for ch, extra in (({"min_swap_pka_shift": "5.0"}, ()), ({"max_free_energy_diff": "0.1"}, ()), ({}, ("exclude_sidechain_interactions TYR", "exclude_sidechain_interactions ASP")),
+                      ({"max_intrinsic_pka_diff": "0.2"}, ())):
+        path = c16.custom_cfg(ch, extra_lines=extra)
+        cfgs.append(path)
+        cases.append((f"1HPX.pdb with {ch or list(extra)}", structures.read("1HPX.pdb"), ["-p", path]))
+    # the dimer pulled apart a little: pairs that pass the interaction / pKa tests but fail on the swap-shift criterion
+    from decimal import Decimal as _D
+    for dx in (1.5, 2.0):
+        moved = structures.map_atoms(structures.read("1HPX.pdb"), lambda l: structures.set_xyz(l, structures.get_xyz(l)[0] + _D(str(dx)), structures.get_xyz(l)[1], structures.get_xyz(l)[2]) if l[21] == "B" else l)
+        cases.append((f"1HPX.pdb chain B displaced by {dx} A", moved, []))
     nswaps = 0
-    for name, text in cases:
+    for name, text, copts in cases:
         # ---- analysis off (no swap at all) vs on
         C.NCCG.do_prot_stat = False
         try:
-            mol0, _ = structures.run(text)
+            mol0, _ = structures.run(text, copts)
         finally:
             C.NCCG.do_prot_stat = True
         with DT.recording() as rec:
-            mol1, _ = structures.run(text)
+            mol1, _ = structures.run(text, copts)
             DT.finalize(rec)
         sw = sum(1 for o in rec.ops if o[0] == "OSwap")
         nswaps += sw
@@ -144,6 +157,10 @@ def run(chk: common.Check):
             if d:
                 dis.append({"case": name, "differences": d[:4]})
             chk.cov["traces_validated_against_impl"] += 1
+    import os as _os
+    for p_ in cfgs:
+        if _os.path.exists(p_):
+            _os.unlink(p_)
     chk.corr_stats["dets_trace_with_swaps"] = {"runs": len(cases), "swap_operations_replayed": nswaps, "disagreements": len(dis)}
     chk.sample({"case": cases[-1][0], "swaps": nswaps})
     uniq = {}
